@@ -1,9 +1,9 @@
 package main
 
 import (
-	"bufio"
+	"fmt"
 	"io"
-	"os"
+	"sort"
 
 	"go.pennock.tech/tabular"
 	"go.pennock.tech/tabular/auto"
@@ -78,10 +78,58 @@ func (w *world) renderAll(tid int) []interface{} {
 	return out
 }
 
+// autoProbe (C19): what auto.New(style) is (dynamic type, decoration) and whether a
+// small table built through it renders.
+func autoProbe(style string) M {
+	res := M{"style": style}
+	func() {
+		defer func() {
+			if r := recover(); r != nil {
+				res["status"], res["empty"], res["panic"] = "panic", 0, fmt.Sprint(r)
+			}
+		}()
+		rt := auto.New(style)
+		res["kind"] = kindOf(rt)
+		if d := decorOfWrapper(rt); d != nil {
+			res["hasdec"], res["dec"] = 1, d
+		} else {
+			res["hasdec"], res["dec"] = 0, M{"boxless": 0, "empty": 0, "g": M{}}
+		}
+		rt.AddHeaders("h", "i")
+		rt.AddRowItems("a", "b")
+		rt.AddRowItems("c", "d")
+		txt, err := rt.Render()
+		if err != nil {
+			res["status"] = "error"
+		} else {
+			res["status"] = "ok"
+		}
+		res["empty"] = b2i(txt == "")
+	}()
+	if _, ok := res["kind"]; !ok {
+		res["kind"], res["hasdec"], res["dec"] = "?", 0, M{"boxless": 0, "empty": 0, "g": M{}}
+	}
+	return res
+}
+
 var _ = tabular.New
 
 func (w *world) execRender2(op M) bool {
 	switch opStr(op, "op") {
+	case "autonew":
+		w.lastRes = M{"auto": autoProbe(opStr(op, "style"))}
+		return true
+	case "liststyles":
+		l := auto.ListStyles()
+		il := make([]interface{}, len(l))
+		each := []interface{}{}
+		for i, s := range l {
+			il[i] = s
+			p := autoProbe(s)
+			each = append(each, []interface{}{s, p["kind"], p["status"], p["empty"]})
+		}
+		w.lastRes = M{"styles": M{"list": il, "sorted": b2i(sort.StringsAreSorted(l)), "each": each}}
+		return true
 	case "faultsweep":
 		w.lastRes = M{"faults": w.faultSweep(op)}
 		return true
@@ -96,6 +144,3 @@ func (w *world) execRender2(op M) bool {
 }
 
 func (w *world) observeMore(obs M, facets map[string]bool, op M) {}
-
-func runRegistryMode(in *os.File, w *bufio.Writer)                  { derr("not built") }
-func runConcMode(in *os.File, w *bufio.Writer, f map[string]bool) { derr("not built") }
